@@ -53,7 +53,9 @@ def run(ctx):
     vg = chosen[:30] if ctx.thorough else chosen[:8]
     sh3 = zoorun.make_shards(ctx, vg, "zio::drive_c08<{Z}>();", "faults", flavour="vg-O0", extra_include="zoo_io.hpp", per_shard=1,
                              primary=False, defines=["VH_VALGRIND"])
-    ctx.run_shards(sh + sh2 + sh3, timeout=7200)
+    runs = ctx.run_shards(sh + sh2 + sh3, timeout=7200)
+    ctx.stats["damaged_loads_under_memcheck"] = sum(r.ev for r in runs if r is not None and r.flavour.startswith("vg"))
+    ctx.stats["damaged_loads_under_asan_ndebug"] = sum(r.ev for r in runs if r is not None and r.flavour.startswith("asan-rel"))
     return ctx.finish(
         rule=("dumps of %d representative generated stacks (greedy cover of every layer kind, small payloads first): (1) EVERY proper prefix of the "
               "dump (complete when the dump is <= 1500 bytes (6000 thorough); otherwise the first and last 600 bytes and every 13th offset); (2) every "
